@@ -42,6 +42,8 @@ func lookupIntrinsic(fn *ssa.Function) intrinsicFn {
 		f = in
 	} else if nf, ok := nativeFuncs[name]; ok {
 		f = nativeWrapper(name, nf)
+	} else if ext, ok := externals[name]; ok && fn.Parent() == nil {
+		f = intrinsicFn(ext)
 	}
 	if f != nil {
 		intrinsicCache.Store(fn, f)
